@@ -85,15 +85,50 @@ def pmodel(lines, nproc=16):
 
 # ------------------------------------------------------------------ S-expression helpers
 
-_TOK_RE = re.compile(r'[+!]?\((?:[^()"]|"(?:[^"\\]|\\.)*")*\)|"(?:[^"\\]|\\.)*"|[^\s()"]+')
-
-
 def split_toks(s):
-    """'(a (i "x") w)' -> ['a', '(i "x")', 'w'] (one level)."""
+    """'(a (i "x") w "s t")' -> ['a', '(i "x")', 'w', '"s t"'] : the items of one list level
+    (items may be atoms, quoted strings, or parenthesised groups, optionally prefixed by + or !)."""
     s = s.strip()
-    if s.startswith("(") and s.endswith(")"):
-        s = s[1:-1]
-    return _TOK_RE.findall(s)
+    n = len(s)
+    i = 0
+    if n and s[0] == "(" and s[-1] == ")":
+        i, n = 1, n - 1
+    out = []
+    while i < n:
+        c = s[i]
+        if c == " ":
+            i += 1
+            continue
+        st = i
+        if c in "+!" and i + 1 < n and s[i + 1] == "(":
+            i += 1
+            c = "("
+        if c == "(":
+            depth = 0
+            while i < n:
+                c = s[i]
+                if c == '"':
+                    i += 1
+                    while s[i] != '"':
+                        i += 2 if s[i] == "\\" else 1
+                elif c == "(":
+                    depth += 1
+                elif c == ")":
+                    depth -= 1
+                    if depth == 0:
+                        break
+                i += 1
+            i += 1
+        elif c == '"':
+            i += 1
+            while s[i] != '"':
+                i += 2 if s[i] == "\\" else 1
+            i += 1
+        else:
+            while i < n and s[i] not in ' ()"':
+                i += 1
+        out.append(s[st:i])
+    return out
 
 
 _STR_RE = re.compile(r'"((?:[^"\\]|\\.)*)"')
@@ -313,7 +348,7 @@ def c19_case(c, agg):
     i = c.impl
     o = opts_json(c.opts)
     bad, known = [], []
-    tree_end = split_toks(c.tree)[1:3]
+    tree_end = re.match(r'^\(tree (\d+) (\d+)', c.tree).groups()
     import_starts = set()
     for mm in _IMPORT_NEXT_RE.finditer(c.tree):
         if mm.group(2) is not None:
